@@ -5,6 +5,7 @@ From Coq Require Import List Bool String ZArith.
 Import ListNotations.
 Require Pauli Conj Conj2 Ring8.
 Require Import Stab Act Gen_GateTable Gen_PauliRef GenProofs_PauliRef TableAut.
+Require Gen_Avoid GenProofs_Avoid.
 
 (* (1) The documented semantics: every unitary_data matrix in the table is unitary and conjugates the generator
        Paulis exactly as flow_data says (exact arithmetic in Z[sqrt2,i]/2, little-endian Kronecker order). *)
@@ -88,3 +89,10 @@ Proof. repeat split; [ destruct pauliref_do1 as [|[g f] l] eqn:E | destruct paul
        with the reverse-order flag. *)
 Theorem C12_undo_pair_order_ok : names2 bad_undo_order = [].
 Proof. exact pauliref_undo_pair_order_ok. Qed.
+
+(* The refusal conditions of after() / before() at collapsing instructions, regenerated from source: a basis-B measurement refuses
+   exactly the strings whose Pauli at a target (indexed by the qubit value) anticommutes with B; a reset refuses any non-identity
+   Pauli at a target; MPP sums the anticommutation of the terms of each product. *)
+Theorem C12_refusal_conditions_are_anticommutation : GenProofs_Avoid.avoid_ok = true.
+Proof. exact GenProofs_Avoid.refusal_conditions_are_anticommutation. Qed.
+Print Assumptions C12_refusal_conditions_are_anticommutation.
